@@ -238,6 +238,13 @@ func vRunImpl(vm *VM, goal Term, vars []Variable, max int, trace *[]Term) vImplR
 		}
 		return Bool(false)
 	}, nil).Force(context.Background())
+	if e, ok := err.(Exception); ok {
+		// the executor explores "not enough free memory" at every makeSlice (free memory is a symbolic amount); resource
+		// errors are outside what the differential harnesses compare (C05 checks them), so such a path is dropped
+		if c, ok := vFormal(e.Term()).(Compound); ok && c.Functor() == NewAtom("resource_error") {
+			assume(false)
+		}
+	}
 	switch {
 	case err != nil:
 		out.status, out.err = "error", err
@@ -326,10 +333,10 @@ func vCompareRuns(tag string, impl vImplRun, ref rRun, kfid string, region bool)
 }
 
 func vErrString(err error) string {
-	if _, ok := err.(Exception); ok {
-		return "exception"
+	if e, ok := err.(Exception); ok {
+		return "exception " + e.Error()
 	}
-	return "go error"
+	return "go error " + err.Error()
 }
 
 // vRegisterEmit installs emit/1, which records a copy of its argument.
